@@ -25,6 +25,9 @@ ok = 'passed' in suite and 'failed' not in suite
 if not ok:
     print('suite does not pass with this refactoring; not kept:', suite)
     sys.exit(1)
+import fcntl
+_lock = open('/tmp/verif-repo.lock', 'w')          # /repo is patched in place: one filing at a time
+fcntl.flock(_lock, fcntl.LOCK_EX)
 rc, o = sh('git -C /repo status --porcelain')
 assert not o.strip(), '/repo not clean'
 rc, o = sh('git -C /repo apply %s' % patch)
